@@ -311,6 +311,25 @@ def run(prog: Program, rep: Report, tier: str):
                        f"differ only there get the same checkpoint although their uninterrupted runs differ",
                        line=ia.line(n), clause="C06.2")
     rep.floor("derived checkpoint components", n_derived, 4)  # 6 on the pinned tree; branches may share an assignment
+    # ---- units of the derivation ----------------------------------------------------------------------------------------
+    rep.rule("G6.derivation-units", "dimensional analysis of the checkpoint completion: start_sample counts samples, start_update "
+             "updates, start_epoch epochs; batch sizes are samples per update, len(main_sampler) and every epoch length samples "
+             "(or updates) per epoch.  Products add, quotients subtract units, sums need equal units (the rounding addend of "
+             "'(a + b - 1) // b' aside); a derived component whose unit is decided and is not its own is a violation, an "
+             "expression outside this algebra is not decided")
+    for g in UNITS:
+        for n, var, val in branches[g]:
+            want_u = _UNIT_OF_START[var[len("start_"):]]
+            try:
+                got_u = _unit(ia, ia.sym.term(val, n), n, 0)
+            except _NoUnit as e:
+                rep.unk("G6.derivation-units", init, f"start_{g}->{var}", f"unit not decided: {e}", line=ia.line(n), clause="C06.2")
+                continue
+            okU = got_u is None or got_u == want_u
+            rep.decide(okU, "G6.derivation-units", init, f"start_{g}->{var}",
+                       f"{var} carries the unit {_unit_name(want_u)}",
+                       f"{var} (line {ia.line(n)}) is computed as a quantity in {_unit_name(got_u)}, not in {_unit_name(want_u)}: "
+                       f"{' '.join(ast.unparse(val).split())[:70]}", line=ia.line(n), clause="C06.2")
 
     # ---- epoch length agreement (case table) -----------------------------------------------------------------------------
     rep.rule("G9.epoch-length-agreement", "for each geometry case (no drop_last | drop_last | drop_last with drop_last_batch_size) "
@@ -554,3 +573,107 @@ def _unv(t):
     if t[0] == "var" and t[1].startswith("self."):
         return ("self", t[1][5:])
     return t
+
+
+# ---- unit algebra for the checkpoint derivation: exponents of (samples, updates, epochs) ------------------------------------
+_UNIT_OF_START = {"sample": (1, 0, 0), "update": (0, 1, 0), "epoch": (0, 0, 1)}
+_PER_UPDATE = (1, -1, 0)   # batch sizes: samples per update
+_PER_EPOCH_S = (1, 0, -1)  # samples per epoch
+
+
+class _NoUnit(Exception):
+    pass
+
+
+def _unit_name(u) -> str:
+    if u is None:
+        return "a pure number"
+    names_ = ("samples", "updates", "epochs")
+    num = [f"{nm}{'^' + str(e) if e != 1 else ''}" for nm, e in zip(names_, u) if e > 0]
+    den = [f"{nm}{'^' + str(-e) if e != -1 else ''}" for nm, e in zip(names_, u) if e < 0]
+    return (" * ".join(num) or "1") + ((" per " + " * ".join(den)) if den else "")
+
+
+def _uadd(a, b, sign=1):
+    if a is None:
+        return tuple(sign * x for x in b) if b is not None else None
+    if b is None:
+        return a
+    r = tuple(x + sign * y for x, y in zip(a, b))
+    return None if r == (0, 0, 0) else r
+
+
+def _unit(ia: FA, t, at: int, depth: int):
+    """unit of a term: a triple of exponents, or None for a pure number"""
+    if depth > 12:
+        raise _NoUnit("expression too deep")
+    k = t[0]
+    if k == "const":
+        if isinstance(t[1], (int, float)) and not isinstance(t[1], bool):
+            return None
+        raise _NoUnit(f"constant {t[1]!r}")
+    if k == "param":
+        nm = t[1]
+        if nm.startswith("start_") and nm[6:] in _UNIT_OF_START:
+            return _UNIT_OF_START[nm[6:]]
+        if nm in ("batch_size", "drop_last_batch_size"):
+            return _PER_UPDATE
+        raise _NoUnit(f"parameter {nm}")
+    if k == "call" and t[1] == ("global", "len") and len(t[2]) == 1 and t[2][0] in (("param", "main_sampler"), ("self", "main_sampler")):
+        return _PER_EPOCH_S
+    if k == "call" and t[1][0] == "global" and t[1][1].rsplit(".", 1)[-1] in ("int", "ceil", "floor", "round", "abs") and len(t[2]) == 1:
+        return _unit(ia, t[2][0], at, depth + 1)
+    if k == "or":
+        us = {_unit(ia, x, at, depth + 1) for x in t[1]}
+        if len(us) == 1:
+            return next(iter(us))
+        raise _NoUnit("alternatives of different units")
+    if k == "var":
+        us = set()
+        for d in t[2]:
+            if ia.cfg.nodes[d].kind == "entry":
+                us.add(_unit(ia, ("param", t[1]), at, depth + 1))
+                continue
+            v = ia.cfg.def_value(d, t[1])
+            if v is None:
+                raise _NoUnit(f"local {t[1]} without a plain definition")
+            us.add(_unit(ia, ia.sym.term(v, d), d, depth + 1))
+        if len(us) == 1:
+            return next(iter(us))
+        raise _NoUnit(f"local {t[1]} holds quantities of different units")
+    if k == "binop" and t[1] in ("//", "/"):
+        num, den = t[2], t[3]
+        ud = _unit(ia, den, at, depth + 1)
+        # the rounding addend of a ceiling division: (a + b - 1) // b
+        pn = term_to_poly(num)
+        rest = pn - term_to_poly(den) + Poly.const(1)
+        try:
+            un = _unit_poly(ia, pn, at, depth + 1)
+        except _NoUnit:
+            un = _unit_poly(ia, rest, at, depth + 1)
+        return _uadd(un, ud, -1)
+    if k == "binop" and t[1] == "%":
+        return _unit(ia, t[2], at, depth + 1)
+    if k == "poly":
+        return _unit_poly(ia, term_to_poly(t), at, depth + 1)
+    raise _NoUnit(f"{show(t)[:40]}")
+
+
+def _unit_poly(ia: FA, p: Poly, at: int, depth: int):
+    us = set()
+    for mono, coeff in p.terms.items():
+        if mono == ():
+            continue   # a pure constant takes the unit of its neighbours only in the rounding idiom, handled by the caller
+        u = None
+        for atom, power in mono:
+            ua = _unit(ia, atom, at, depth + 1)
+            for _ in range(power):
+                u = _uadd(u, ua, 1) if ua is not None else u
+        us.add(u)
+    if () in p.terms and us and us != {None}:
+        raise _NoUnit("a pure number is added to a quantity with a unit")
+    if len(us) == 1:
+        return next(iter(us))
+    if not us:
+        return None
+    raise _NoUnit("sum of quantities with different units")
